@@ -150,4 +150,12 @@ CHECKS = {
         "design_ref": "DESIGN.md section 3, C11",
         "note": "Tolerance 1e-9 relative. reduced chi-squared with fewer data points than free parameters is outside its domain (counted as excluded).",
     },
+    "C04": {
+        "technique": "property-based testing: (a) seeding helper against a private RandomState and state identity, (b) introspection-discovered seeded models run twice from different generator states, (c) generated stochastic pipelines re-run from different prior states / process histories in every mode, (d) injectivity-based leak detector for unseeded random models",
+        "text": "The seeding context manager is compared with numpy's own RandomState for generated seeds, prior states, nesting and raising bodies; all functions of pyxel.models with a seed parameter (discovered by introspection, 13 with recipes, "
+                "4 listed as skipped) must be reproducible and state-preserving; generated pipelines of the stochastic library models with a pipeline_seed must give bit-identical result trees in exposure, sequential and dask "
+                "observation and calibration from different prior states, after unseeded or failing runs, and restore the generator also when a model raises; unseeded random models must not re-seed the process. Exploration.",
+        "design_ref": "DESIGN.md section 3, C04",
+        "note": "Dask paths on the synchronous scheduler (threaded race = C07's known finding K2). Models without an offline recipe (cosmix, charge_deposition x2, nghxrg) are counted as skipped in evidence. pulse_processing's minutes-long phase conversion is stubbed from outside.",
+    },
 }
